@@ -27,7 +27,8 @@ BUDGET = 30_000_000      # proposals; a cut run that needs more than this while 
 FAMILIES = ['gauss', 'mixture', 'periodic', 'funnel', 'plateau', 'corr', 'ring', 'islands']
 RULE = ('three kinds of case on small seeded runs (K = 20..90 batches; networks 0/1, periodic, every blob dtype, '
         'discard_exploration, vectorised, Prior object or function). (every_k) reference = one uninterrupted run; the '
-        'run is repeated as run(n_like_max = k*n_batch) for EVERY k = 1..K with the checkpoint copied after each '
+        'run is repeated (for odd residues on a path that already holds the finished checkpoint of an earlier run, with '
+        'resume=False) as run(n_like_max = k*n_batch) for EVERY k = 1..K with the checkpoint copied after each '
         'return; for every k in this case\'s residue class (k mod 8) a NEW Sampler object (a fresh interpreter for '
         'two of them) is built from copy k and run to completion; sliced and resumed digests (posterior arrays, log_z, '
         'n_eff, n_like) must equal the reference and no unit point may be evaluated both before and after the cut (the '
@@ -36,7 +37,8 @@ RULE = ('three kinds of case on small seeded runs (K = 20..90 batches; networks 
         '(toggle) a history with discard_exploration toggles executed in one piece and again with a resume after every '
         'step. Non-trivial = distinct (configuration, k) pairs resumed and compared (+ completed multi/toggle '
         'histories); the evidence splits them by phase (exploration, bound-insertion boundary, end of exploration, '
-        'sampling).')
+        'sampling). Every second configuration additionally runs in a "deep" variant (few bounds, n_shell = 1300, so that '
+        'every bound refills its proposal cache after the last full write) cut at every fourth boundary.')
 ASSUMPTIONS = ['a stop is a return of run(); file states that exist only between two writes inside one loop '
                'iteration are C06 (validity), not C05 (bit-identity)',
                'requires determinism for a fixed seed (C11)']
@@ -65,6 +67,15 @@ def gen_cases(tier, seed):
         base = {'seed': seed, 'prob': pspec, 'cfg': cfg, 'j': j}
         for r in range(R):
             cases.append(dict(base, kind='every_k', residue=r, i=len(cases)))
+        if j % 2 == 0:
+            # few bounds, many samples per shell (n_shell = 1300): every bound has to refill its proposal cache - and the
+            # cache of its outer union - several times after the last full checkpoint write
+            deep = dict(cfg, f_live=0.3, n_shell=1300, n_eff=100, n_batch=100, n_live=150, n_update=None,
+                        n_like_new_bound=None, periodic=cfg['periodic'])
+            if deep['n_update'] == 1:
+                deep.update(enlarge_per_dim=1.1, n_points_min=None)
+            for r in range(4):
+                cases.append(dict(base, cfg=deep, kind='every_k', residue=r, R=4, deep=True, i=len(cases)))
         cases.append(dict(base, kind='multi', i=len(cases)))
         cases.append(dict(base, kind='toggle', i=len(cases)))
     return cases
@@ -126,8 +137,9 @@ def _resume_in_child(spec, cap, path, scratch):
 def run_case(spec):
     cfg = spec['cfg']
     nb = cfg['n_batch']
-    cap = 60 * nb + 40 * cfg['n_live'] + (1500 if cfg['n_update'] == 1 else 0)
-    obs = dict(resumes_compared=0, sliced_runs_compared=0, batches_in_reference_max=0, fresh_process_resumes=0,
+    cap = 60 * nb + 40 * cfg['n_live'] + (1500 if cfg['n_update'] == 1 else 0) + (40000 if spec.get('deep') else 0)
+    RR = spec.get('R', R)
+    obs = dict(started_over_stale_file=0, resumes_compared=0, sliced_runs_compared=0, batches_in_reference_max=0, fresh_process_resumes=0,
                phase={'exploration': 0, 'bound_insertion_next': 0, 'end_of_exploration': 0, 'sampling': 0},
                points_checked_for_double_evaluation=0, multi_histories=0, toggle_histories=0, stops=0)
     viols = []
@@ -165,6 +177,11 @@ def run_case(spec):
             # ------------ in-memory slicing at every batch boundary, copying the checkpoint each time
             prob = workloads.Problem(spec['prob'])
             path = os.path.join(scratch, 'sliced.hdf5')
+            if spec['residue'] % 2 == 1:
+                # the path already holds the finished checkpoint of an earlier run; resume=False is documented to start
+                # from scratch and overwrite it
+                shutil.copyfile(os.path.join(scratch, 'ref.hdf5'), path)
+                obs['started_over_stale_file'] = 1
             log = EvalLog()
             copies = {}
             with Hooks([log], proposal_budget=BUDGET, clock=VirtualClock()):
@@ -175,8 +192,8 @@ def run_case(spec):
                         k += 1
                         done = s.run(**_kw(cfg, n_like_max=k * nb))
                         obs['stops'] += 1
-                        thin = cfg['n_update'] == 1 and not s.explored and (k // R) % 4 != 0
-                        if k % R == spec['residue'] and not done and not thin:
+                        thin = cfg['n_update'] == 1 and not s.explored and (k // RR) % 4 != 0
+                        if k % RR == spec['residue'] and not done and not thin:
                             cp = os.path.join(scratch, 'copy-%d.hdf5' % k)
                             shutil.copyfile(path, cp)
                             copies[k] = (cp, _phase(s, cfg), len(log.rows), int(s.n_like))
